@@ -23,11 +23,16 @@ class PynencError(Exception):
 
     def _to_json_dict(self) -> dict[str, Any]:
         """:return: a json serializable dictionary"""
+        if not self.__dict__ and self.args:
+            # Errors without attributes of their own carry their state in Exception.args
+            return {"args": list(self.args)}
         return self.__dict__
 
     @classmethod
     def _from_json_dict(cls, json_dict: dict[str, Any]) -> "PynencError":
         """:return: a new error from the serialized json compatible dictionary"""
+        if set(json_dict) == {"args"}:
+            return cls(*json_dict["args"])
         return cls(**json_dict)
 
     def to_json(self) -> str:
